@@ -312,6 +312,11 @@ def wire(c):
     return f"raw {rule} {op} {pbx.wire_pb(*x)} {pbx.wire_pb(*y)}"
 
 
+def _gen_frechet():
+    from .translator import frechet
+    return frechet.generate(core.REPO, core.LEAN / "Pun/Gen/FrechetGen.lean")
+
+
 def run(ctx: core.Check):
     core.stub_moments()
     ctx.rule = ("raw frechet_op / naive rule on duck-typed operands: exhaustive 5-value grid boxes for n=1,2, random n=3..6; "
@@ -320,7 +325,8 @@ def run(ctx: core.Check):
     ctx.assumptions = ["general (non-permutation) couplings are mixtures of permutations (Birkhoff) — cited, not proved",
                        "binary64 rounding not modelled; integer streams agree exactly for + - *, others within ulp tolerance",
                        "moments (LP) are stubbed in the harness process; they are C04's concern"]
-    ctx.lean_stage(["Pun.Lemmas.Frechet", "Pun.Lemmas.PBoxList", "Pun.Lemmas.PBoxFrechet", "Pun.Lemmas.PBoxMk", "Pun.Lemmas.PBoxNeg", "Pun.Lemmas.PBoxFrechet2", "Pun.Lemmas.PBoxRecip", "Pun.Props.C02"])
+    ctx.lean_stage(["Pun.Lemmas.Frechet", "Pun.Lemmas.PBoxList", "Pun.Lemmas.PBoxFrechet", "Pun.Lemmas.PBoxMk", "Pun.Lemmas.PBoxNeg", "Pun.Lemmas.PBoxFrechet2", "Pun.Lemmas.PBoxRecip", "Pun.Props.C02", "Pun.Props.C02Gen"],
+                   generators=[("operation.frechet_op loop", _gen_frechet)])
     cases = gen_cases(ctx)
     replies = core.model_batch("C02", [wire(c) for c in cases])
     rng = ctx.rng
